@@ -315,12 +315,39 @@ def _unwrap(items):
     return items
 
 
+_PROP_POS = re.compile(r"\\p\{[A-Za-z_=: ]+\}")
+_RECURSE = re.compile(r"\(\?(?:R|[0-9]+|&[A-Za-z_]+)\)")
+
+
+def approx_rewrite(pattern: str) -> Optional[str]:
+    """Stdlib-readable OVER-approximation of a ``regex``-module pattern, or None.
+
+    ``\\p{L}``, ``\\p{N}`` ... (positive Unicode properties) become ``\\w`` - every letter,
+    mark-less identifier character and number is a word character, so a class only grows;
+    recursion ``(?R)`` / ``(?1)`` becomes ``.*``.  Negated use (``\\P{..}``, a property inside
+    ``[^...]``) cannot be over-approximated this way and stays unknown.
+    """
+    if "\\P{" in pattern:
+        return None
+    for m in _PROP_POS.finditer(pattern):
+        before = pattern[: m.start()]
+        open_i = before.rfind("[")
+        if open_i >= 0 and before.rfind("]") < open_i and before[open_i: open_i + 2] == "[^":
+            return None
+        name = m.group(0)[3:-1].strip().upper()
+        if name not in ("L", "LU", "LL", "LT", "LM", "LO", "N", "ND", "NL", "NO", "LETTER", "NUMBER", "ALPHABETIC", "ALPHA", "DIGIT"):
+            return None
+    q = _PROP_POS.sub(lambda _m: "\\w", pattern)
+    q = _RECURSE.sub(".*", q)
+    return q if q != pattern else None
+
+
 class PatternInfo:
     """Result of :func:`analyse`."""
 
     def __init__(self, pattern: str):
         self.pattern = pattern
-        self.status = "ok"  # ok | unknown
+        self.status = "ok"  # ok | approx (only ``first``/``nullable`` meaningful) | unknown
         self.error: Optional[str] = None
         self.nullable = False
         self.first = EMPTY
@@ -350,6 +377,19 @@ def analyse(pattern: str, flags: int = 0) -> PatternInfo:
         res.status = "unknown"
         res.error = f"{type(e).__name__}: {e}"
         res.exact = False
+        alt = approx_rewrite(pattern)
+        if alt is not None:
+            try:
+                tree = P.parse(alt, flags)
+                info = _seq(list(tree), flags | tree.state.flags)
+                # only the over-approximated first set is kept: enough to prove that the
+                # pattern can NOT start with a character, never to discharge an obligation
+                res.status = "approx"
+                res.nullable = info.nullable
+                res.first = info.first
+                res.shape = "approximated"
+            except (re.error, RecursionError, OverflowError, ValueError, IndexError):
+                pass
         _CACHE[key] = res
         return res
     items = list(tree)
